@@ -113,30 +113,35 @@ class BreakerFlow(Client):
                 q = tg.func.qual
                 if q == f"{CB}.allow":
                     self.sites["allow"].add(ev.where())
-                    if adm != "NA":
+                    if adm not in ("NA", "NAa"):
                         flags = flags | {f"allow-twice@{ev.func.qual}"}
                     return ("ASKED", recs, flags)
                 if q in RECORDS:
                     self.sites["record"].add(ev.where())
                     kind = RECORDS[q]
-                    if adm in ("NA", "REJ", "NB"):
-                        via = ev.stack[-1][0] if ev.stack else ev.func.qual
-                        flags = flags | {f"record-unadmitted|{adm}|{kind}|{ev.func.qual}|via={via}"}
+                    if adm in ("NA", "NAa", "REJ", "NB"):
+                        # identified by the history that leads to it (not by the function it happens to sit in):
+                        # which user callback was consulted last before the breaker was told
+                        after = "abort_if" if adm == "NAa" else "none"
+                        flags = flags | {f"record-unadmitted|{'NA' if adm == 'NAa' else adm}|{kind}|{ev.func.qual}|after={after}"}
                     if len(recs) < 3:
                         recs = recs + (kind,)
                     return (adm, recs, flags)
                 if tg.func.cls is not None and tg.func.cls.qual in RETRY_CLASSES and tg.func.name in ("call", "execute"):
                     self.sites["retry"].add(ev.where())
-                    if adm in ("ASKED", "REJ", "NA"):
-                        flags = flags | {f"operation-unadmitted|{adm}|{ev.func.qual}|retry.{tg.func.name}"}
+                    if adm in ("ASKED", "REJ", "NA", "NAa"):
+                        flags = flags | {f"operation-unadmitted|{'NA' if adm == 'NAa' else adm}|{ev.func.qual}|retry.{tg.func.name}"}
                     return (adm, recs, flags)
             if tg.kind == "callback":
                 self.sites["callback"].add(f"{ev.where()}:{tg.category}")
                 if tg.category == "operation":
                     self.sites["operation"].add(ev.where())
-                    if adm in ("ASKED", "REJ", "NA"):
-                        flags = flags | {f"operation-unadmitted|{adm}|{ev.func.qual}|func"}
+                    if adm in ("ASKED", "REJ", "NA", "NAa"):
+                        flags = flags | {f"operation-unadmitted|{'NA' if adm == 'NAa' else adm}|{ev.func.qual}|func"}
                     return (adm, recs, flags)
+                if adm in ("NA", "NAa"):
+                    # before admission: remember whether the abort predicate was the last user code consulted
+                    return ("NAa" if tg.category == "abort_if" else "NA", recs, flags)
         return cs
 
     def _no_breaker(self, ev: Event) -> bool:
@@ -157,7 +162,7 @@ class BreakerFlow(Client):
         cond = ev.node.info["cond"]
         if adm == "ASKED" and isinstance(cond, ast.Attribute) and cond.attr == "allowed":
             return ("AD" if branch else "REJ", recs, flags)
-        if adm == "NA" and breaker_absent(ev.env):
+        if adm in ("NA", "NAa") and breaker_absent(ev.env):
             # the refined environment says `<ctx>.breaker is None` (tested directly, through a walrus or a local alias)
             return ("NB", recs, flags)  # there is no breaker on this path
         return cs
